@@ -53,6 +53,10 @@ func (dpq *DelayedPriorityQueue) Enqueue(
 			dpq.currentWindowCounter, dpq.strategy.WindowQuota)
 
 	dpq.ensureWindowIsUpdated()
+	// An arrival that gets here before the roll-over goroutine at a window
+	// boundary must not overtake the requests that are already waiting:
+	// serve them first, then take what is left of the quota.
+	dpq.processQueueItems()
 
 	// Requests are processed in current window, if quota allows for it
 	if dpq.currentWindowCounter < dpq.strategy.WindowQuota {
